@@ -67,6 +67,7 @@ var All = []Prog{
 	{Name: "sleep-advances-now", Run: sleepNow, Expect: []string{"true"}, Timed: true},
 	{Name: "ticker", Run: ticker, Expect: []string{"2"}, Timed: true},
 	{Name: "handoff-vs-timeout", Run: handoffTimeout, Expect: []string{"got/sent", "timeout/nosend"}, Timed: true},
+	{Name: "map-iteration-order", Run: mapOrder, Expect: []string{"abc", "acb", "bac", "bca", "cab", "cba"}},
 	{Name: "timeout-then-late-sender", Run: lateSender, Expect: []string{"timeout/nosend"}, Timed: true},
 }
 
@@ -659,3 +660,13 @@ func lateSender() string {
 
 // spin is a polite busy-wait step: a schedule point under the model, a yield under the runtime.
 func spin() { time.Sleep(time.Microsecond) }
+
+// Map iteration order is unspecified: any order may be observed.
+func mapOrder() string {
+	m := map[string]int{"a": 1, "b": 2, "c": 3}
+	out := ""
+	for k := range m {
+		out += k
+	}
+	return out
+}
